@@ -165,6 +165,7 @@ def run(chk: Check):
         "by no rule but any_cmd. P4: a word becomes Constant(tok.string) over the token's span; glued text is previous + current with "
         "the previous start and the current end. Word splitting over all spellings depends on how every spelling tokenizes and is "
         "not decided.")
+    chk.explanation += ' Also evaluated here: every look-ahead in front of a bracket form admits all of its openers (A10) and all column producers use one unit.'
     chk.trusted = ["xpverif.absint shapes and location provenance", "xpverif.pyir"]
     chk.assumptions = ["token coordinates are right (C08)"]
     ix = Index()
